@@ -135,33 +135,211 @@ func windowWidth(hi, lo, x ssa.Value) (int64, bool) {
 	return 0, false
 }
 
-// tiledOver: l is counted from 0 while iv < len(x) in steps of w, with no other exit
-func tiledOver(l *SLoop, x ssa.Value, w int64) (bool, string) {
-	switch {
-	case l == nil || !l.Counted:
-		return false, "the index is not the variable of a counted loop"
-	case l.StartConst == nil || *l.StartConst != 0:
-		return false, "the loop does not start at 0"
-	case l.Op != token.LSS:
-		return false, "the loop does not continue while index < length"
-	case !isLenOfList(l.Bound, x):
-		return false, "the loop is not bounded by the length of the list it walks (bound: " + l.Bound.String() + ")"
-	case l.Step != w:
-		return false, fmt.Sprintf("the loop advances by %d but consumes %d element(s) per iteration", l.Step, w)
-	case !l.SingleExit:
-		return false, "the loop has another exit"
+// ---- tile descriptors
+//
+// A loop tiles the list x with stride W when a "start" expression S of its body takes the values 0, W, 2W, … while
+// S < len(x), with no other exit. S is kept as a polynomial over SSA leaves (ipoly), so that syntactically different
+// computations of the same index (no CSE in go/ssa; `3*q` written twice; `i+j` and `j+i`) compare equal. Forms:
+//   counted      for i := 0; i < len(x); i += W                S = i
+//   range        for i := range x / for i, e := range x        S = i,   W = 1
+//   cursor       for s := 0; s < len(x); s = e  with  e = min(len(x), s+W) computed in the body      S = s
+//   multiplier   for q := 0; m*q < len(x); q++                 S = m·q, W = m
+// A callee that receives (x, S) from such a loop is analysed with its parameter standing for S (ctx).
+
+type tile struct {
+	start ipoly
+	w     int64
+	loop  *SLoop
+	fi    *FnInfo
+}
+
+func polySub(a, b ipoly) ipoly {
+	if a == nil || b == nil {
+		return nil
 	}
-	return true, ""
+	r := ipoly{}
+	for m, c := range a {
+		r[m] += c
+	}
+	for m, c := range b {
+		r[m] -= c
+		if r[m] == 0 {
+			delete(r, m)
+		}
+	}
+	for m, c := range r {
+		if c == 0 {
+			delete(r, m)
+		}
+	}
+	return r
+}
+
+func polyConst(p ipoly) (int64, bool) {
+	if p == nil {
+		return 0, false
+	}
+	if len(p) == 0 {
+		return 0, true
+	}
+	if len(p) == 1 {
+		if c, ok := p[""]; ok {
+			return c, true
+		}
+	}
+	return 0, false
+}
+
+func poly(v ssa.Value) ipoly {
+	if v == nil {
+		return nil
+	}
+	return ipolyOf(v, map[string]ssa.Value{}, 0)
+}
+
+// widthOf: hi = lo + W, or that clipped to len(x) (module min, builtin min, explicit clip)
+func widthOf(hi, lo, x ssa.Value) (int64, bool) {
+	if hi == nil || lo == nil {
+		return 0, false
+	}
+	lp := poly(lo)
+	if w, ok := polyConst(polySub(poly(hi), lp)); ok && w > 0 {
+		return w, true
+	}
+	if a, b, ok := minOperands(hi); ok {
+		for _, pr := range [][2]ssa.Value{{a, b}, {b, a}} {
+			if isLenOfList(pr[0], x) {
+				if w, ok := polyConst(polySub(poly(pr[1]), lp)); ok && w > 0 {
+					return w, true
+				}
+			}
+		}
+	}
+	return 0, false
+}
+
+// tileOf: the tile descriptor of loop l over list x, or why it is none
+func tileOf(fi *FnInfo, l *SLoop, x ssa.Value) (*tile, string) {
+	if l == nil {
+		return nil, "not inside a loop over the list"
+	}
+	if !l.SingleExit {
+		return nil, "the loop has another exit"
+	}
+	h := l.Header
+	iff, ok := h.Instrs[len(h.Instrs)-1].(*ssa.If)
+	if !ok || len(h.Succs) != 2 {
+		return nil, "the loop is not controlled by its header"
+	}
+	cmp, ok := iff.Cond.(*ssa.BinOp)
+	if !ok {
+		return nil, "the loop condition is not a comparison"
+	}
+	inTrue := l.Blocks[h.Succs[0]]
+	var A ssa.Value
+	switch {
+	case cmp.Op == token.LSS && isLenOfList(cmp.Y, x) && inTrue:
+		A = cmp.X
+	case cmp.Op == token.GTR && isLenOfList(cmp.X, x) && inTrue:
+		A = cmp.Y
+	case cmp.Op == token.GEQ && isLenOfList(cmp.Y, x) && !inTrue:
+		A = cmp.X
+	case cmp.Op == token.LEQ && isLenOfList(cmp.X, x) && !inTrue:
+		A = cmp.Y
+	default:
+		return nil, "the loop does not run while its index is below the length of the list it walks (condition: " + cmp.String() + ")"
+	}
+	pa := poly(A)
+	if pa == nil {
+		return nil, "the loop index is not an affine expression"
+	}
+	// A = m·q + c0 over a single header phi q
+	var q *ssa.Phi
+	m, c0 := int64(0), int64(0)
+	for mono, c := range pa {
+		if mono == "" {
+			c0 = c
+			continue
+		}
+		var found *ssa.Phi
+		for _, ins := range h.Instrs {
+			phi, ok := ins.(*ssa.Phi)
+			if !ok {
+				break
+			}
+			if phi.Name() == mono {
+				found = phi
+			}
+		}
+		if found == nil || q != nil {
+			return nil, "the loop index is not a multiple of one loop variable"
+		}
+		q, m = found, c
+	}
+	if q == nil || m <= 0 {
+		return nil, "the loop index does not depend on a loop variable"
+	}
+	var init, back ssa.Value
+	for i, p := range h.Preds {
+		if l.Blocks[p] {
+			if back != nil && back != q.Edges[i] {
+				return nil, "the loop variable is updated in several ways"
+			}
+			back = q.Edges[i]
+		} else {
+			if init != nil && init != q.Edges[i] {
+				return nil, "the loop variable has several initial values"
+			}
+			init = q.Edges[i]
+		}
+	}
+	i0, ok := constInt(init)
+	if !ok || back == nil {
+		return nil, "the loop variable does not start at a constant"
+	}
+	if m*i0+c0 != 0 {
+		return nil, fmt.Sprintf("the first window starts at %d, not at 0", m*i0+c0)
+	}
+	// constant step
+	if s, ok := polyConst(polySub(poly(back), ipoly{q.Name(): 1})); ok {
+		if s <= 0 {
+			return nil, "the loop does not advance"
+		}
+		return &tile{start: pa, w: m * s, loop: l, fi: fi}, ""
+	}
+	// cursor: the next start is this window's clipped end
+	if m == 1 && c0 == 0 {
+		if w, ok := widthOf(back, q, x); ok {
+			if _, _, clipped := minOperands(back); clipped {
+				return &tile{start: pa, w: w, loop: l, fi: fi}, ""
+			}
+		}
+	}
+	return nil, "the loop variable does not advance by a constant (or to the clipped end of its window)"
+}
+
+// outerTile: the context a callee inherits: its parameter `start` takes the window starts of a tiled loop of the caller
+type outerTile struct {
+	start *ssa.Parameter
+	w     int64
 }
 
 // everyIteration: the access at block b with index idx into x executes in every iteration of loop l — it dominates
 // the latches — or is skipped only by its own bounds guard `idx < len(x)` (the sponge's partial last chunk)
 func everyIteration(fi *FnInfo, l *SLoop, b *ssa.BasicBlock, idx, x ssa.Value) bool {
+	if l == nil {
+		return fi.MustBlock(b) || guardedOnlyByBounds(fi, nil, b, idx, x)
+	}
 	if mustInLoop(fi, l, b) {
 		return true
 	}
+	return guardedOnlyByBounds(fi, l, b, idx, x)
+}
+
+func guardedOnlyByBounds(fi *FnInfo, l *SLoop, b *ssa.BasicBlock, idx, x ssa.Value) bool {
 	cur := b
-	for d := b.Idom(); d != nil && l.Blocks[d]; cur, d = d, d.Idom() {
+	pi := poly(idx)
+	for d := b.Idom(); d != nil && (l == nil || l.Blocks[d]); cur, d = d, d.Idom() {
 		if len(d.Succs) != 2 {
 			continue
 		}
@@ -169,33 +347,39 @@ func everyIteration(fi *FnInfo, l *SLoop, b *ssa.BasicBlock, idx, x ssa.Value) b
 		if !ok {
 			return false
 		}
+		if fi.Refuse[d.Succs[0].Index] || fi.Refuse[d.Succs[1].Index] {
+			continue // a refusal guard skips nothing
+		}
 		viaTrue := (d.Succs[0] == cur || d.Succs[0].Dominates(cur)) && len(d.Succs[0].Preds) == 1
+		viaFalse := (d.Succs[1] == cur || d.Succs[1].Dominates(cur)) && len(d.Succs[1].Preds) == 1
 		cmp, isCmp := iff.Cond.(*ssa.BinOp)
-		if !viaTrue || !isCmp || cmp.Op != token.LSS || !isLenOfList(cmp.Y, x) || !sameIndexExpr(cmp.X, idx) {
+		if !isCmp || viaTrue == viaFalse {
 			return false
 		}
-		if mustInLoop(fi, l, d) {
+		same := func(v ssa.Value) bool { return ipolyEq(poly(v), pi) }
+		var inBounds bool
+		switch {
+		case same(cmp.X) && isLenOfList(cmp.Y, x):
+			inBounds = (cmp.Op == token.LSS && viaTrue) || (cmp.Op == token.GEQ && viaFalse)
+		case same(cmp.Y) && isLenOfList(cmp.X, x):
+			inBounds = (cmp.Op == token.GTR && viaTrue) || (cmp.Op == token.LEQ && viaFalse)
+		}
+		if !inBounds {
+			return false
+		}
+		if l == nil {
+			if fi.MustBlock(d) {
+				return true
+			}
+		} else if mustInLoop(fi, l, d) {
 			return true
 		}
 	}
 	return false
 }
 
-// sameIndexExpr: the same SSA value, or two additions of the same operands (no CSE in go/ssa)
-func sameIndexExpr(a, b ssa.Value) bool {
-	if a == b {
-		return true
-	}
-	x, ok1 := a.(*ssa.BinOp)
-	y, ok2 := b.(*ssa.BinOp)
-	if !ok1 || !ok2 || x.Op != token.ADD || y.Op != token.ADD {
-		return false
-	}
-	return (x.X == y.X && x.Y == y.Y) || (x.X == y.Y && x.Y == y.X)
-}
-
 // covers: every element of x is consumed exactly once by the code of fn (see the file comment)
-func (t *tiler) covers(fn *ssa.Function, x ssa.Value, what string, depth int) bool {
+func (t *tiler) covers(fn *ssa.Function, x ssa.Value, what string, depth int, ctx *outerTile) bool {
 	if depth > 4 {
 		return t.fail("%s: nesting too deep", what)
 	}
@@ -208,6 +392,28 @@ func (t *tiler) covers(fn *ssa.Function, x ssa.Value, what string, depth int) bo
 	if refs == nil {
 		return t.fail("%s is not used", what)
 	}
+	// the tile (loop over x, or inherited from the caller) whose start expression equals v
+	tileFor := func(b *ssa.BasicBlock, v ssa.Value) (*tile, string) {
+		pv := poly(v)
+		why := "not inside a loop over the list"
+		loops := fi.LoopsOf[b.Index]
+		for i := len(loops) - 1; i >= 0; i-- {
+			tl, w := tileOf(fi, loops[i], x)
+			if tl == nil {
+				why = w
+				continue
+			}
+			if ipolyEq(tl.start, pv) {
+				return tl, ""
+			}
+			why = "the index is not the start of the window of the loop over the list"
+		}
+		if ctx != nil && ipolyEq(pv, ipoly{ctx.start.Name(): 1}) {
+			return &tile{start: pv, w: ctx.w, fi: fi}, ""
+		}
+		return nil, why
+	}
+	// base + offset decompositions of an index: idx − start(tile) is the variable of an inner loop 0 … W−1
 	consumers := 0
 	ok := true
 	for _, r := range *refs {
@@ -236,23 +442,40 @@ func (t *tiler) covers(fn *ssa.Function, x ssa.Value, what string, depth int) bo
 					ok = t.fail("%s is passed variadically at %s", what, site)
 					continue
 				}
+				// does the call also hand over the window start of an enclosing tiled loop?
+				var sub *outerTile
+				loops := fi.LoopsOf[u.Block().Index]
+				for li := len(loops) - 1; li >= 0 && sub == nil; li-- {
+					tl, _ := tileOf(fi, loops[li], x)
+					if tl == nil {
+						continue
+					}
+					for aj, b := range u.Common().Args {
+						if aj < len(callee.Params) && b != x && ipolyEq(poly(b), tl.start) {
+							if !mustInLoop(fi, loops[li], u.Block()) {
+								ok = t.fail("%s: the call at %s is not made in every iteration", what, site)
+							}
+							sub = &outerTile{start: callee.Params[aj], w: tl.w}
+						}
+					}
+				}
 				consumers++
-				if !t.covers(callee, callee.Params[ai], what+"→"+callee.Name(), depth+1) {
+				if !t.covers(callee, callee.Params[ai], what+"→"+callee.Name(), depth+1, sub) {
 					ok = false
 				}
 			}
 		case *ssa.ChangeType:
 			consumers++
-			if !t.covers(fn, u, what, depth) {
+			if !t.covers(fn, u, what, depth, ctx) {
 				ok = false
 			}
 		case *ssa.Slice:
 			if u.X != x {
-				continue // x used as a bound? not possible for a slice
+				continue
 			}
 			if u.Low == nil && u.High == nil {
 				consumers++
-				if !t.covers(fn, u, what, depth) {
+				if !t.covers(fn, u, what, depth, ctx) {
 					ok = false
 				}
 				continue
@@ -261,34 +484,39 @@ func (t *tiler) covers(fn *ssa.Function, x ssa.Value, what string, depth int) bo
 				ok = t.fail("%s: the window %s at %s does not start at a loop variable", what, u.String(), site)
 				continue
 			}
-			l := fi.IvOf[u.Low]
-			w, wok := windowWidth(u.High, u.Low, x)
+			tl, why := tileFor(u.Block(), u.Low)
+			if tl == nil {
+				ok = t.fail("%s: window at %s: %s", what, site, why)
+				continue
+			}
+			w, wok := widthOf(u.High, u.Low, x)
 			if !wok {
 				ok = t.fail("%s: the window at %s is not [i, min(len, i+W))", what, site)
 				continue
 			}
-			if okk, why := tiledOver(l, x, w); !okk {
-				ok = t.fail("%s: window at %s: %s", what, site, why)
+			if w != tl.w {
+				ok = t.fail("%s: window at %s: the loop advances by %d but consumes %d element(s) per iteration", what, site, tl.w, w)
 				continue
 			}
-			if !mustInLoop(fi, l, u.Block()) {
+			if tl.loop != nil && !mustInLoop(fi, tl.loop, u.Block()) {
 				ok = t.fail("%s: the window at %s is not taken in every iteration", what, site)
 				continue
 			}
 			consumers++
-			if !t.covers(fn, u, fmt.Sprintf("%s[i:i+%d]", what, w), depth+1) {
+			if !t.covers(fn, u, fmt.Sprintf("%s[i:i+%d]", what, w), depth+1, nil) {
 				ok = false
 			}
 		case *ssa.IndexAddr:
 			if u.X != x {
 				continue
 			}
-			if l := fi.IvOf[u.Index]; l != nil {
-				if okk, why := tiledOver(l, x, 1); !okk {
-					ok = t.fail("%s: element access at %s: %s", what, site, why)
+			// (a) the index is the start of a stride-1 tile
+			if tl, _ := tileFor(u.Block(), u.Index); tl != nil {
+				if tl.w != 1 {
+					ok = t.fail("%s: element access at %s: the loop advances by %d but consumes 1 element per iteration", what, site, tl.w)
 					continue
 				}
-				if !everyIteration(fi, l, u.Block(), u.Index, x) {
+				if !everyIteration(fi, tl.loop, u.Block(), u.Index, x) {
 					ok = t.fail("%s: the element access at %s is conditional", what, site)
 					continue
 				}
@@ -296,34 +524,71 @@ func (t *tiler) covers(fn *ssa.Function, x ssa.Value, what string, depth int) bo
 				t.leaves = append(t.leaves, fmt.Sprintf("%s[i] %s", what, site))
 				continue
 			}
-			if add, isAdd := u.Index.(*ssa.BinOp); isAdd && add.Op == token.ADD {
-				lo, li := fi.IvOf[add.X], fi.IvOf[add.Y]
-				if lo != nil && li != nil {
-					if li.Parent != lo && lo.Parent == li {
-						lo, li = li, lo
+			// (b) index = start + j (j = 0 … W−1), or the variable of an inner loop running from start to the window's end
+			li := (*SLoop)(nil)
+			loops := fi.LoopsOf[u.Block().Index]
+			if len(loops) > 0 {
+				li = loops[len(loops)-1]
+			}
+			done := false
+			if li != nil && li.Counted && li.Step == 1 && li.Op == token.LSS && li.SingleExit && li.Phi != nil {
+				ivp := ipoly{li.Phi.Name(): 1}
+				if li.RangeForm {
+					ivp = poly(li.IndexVal)
+				}
+				base := polySub(poly(u.Index), ivp)
+				// which tile does `base` (or the inner loop's start) belong to?
+				findTile := func(p ipoly) *tile {
+					outer := fi.LoopsOf[li.Header.Index]
+					for k := len(outer) - 1; k >= 0; k-- {
+						if outer[k] == li {
+							continue
+						}
+						if tl, _ := tileOf(fi, outer[k], x); tl != nil && ipolyEq(tl.start, p) {
+							return tl
+						}
 					}
-					W, isC := int64(0), false
-					if li.Bound != nil {
-						W, isC = constInt(stripCopies(li.Bound))
+					if ctx != nil && ipolyEq(p, ipoly{ctx.start.Name(): 1}) {
+						return &tile{start: p, w: ctx.w, fi: fi}
 					}
-					if !li.Counted || li.StartConst == nil || *li.StartConst != 0 || li.Step != 1 || li.Op != token.LSS || !isC || !li.SingleExit {
-						ok = t.fail("%s: element access at %s: the inner index does not run 0 … W−1 for a constant W", what, site)
-						continue
+					return nil
+				}
+				if li.StartConst != nil && *li.StartConst == 0 {
+					if W, isC := constInt(stripCopies(li.Bound)); isC {
+						if tl := findTile(base); tl != nil {
+							done = true
+							switch {
+							case W != tl.w:
+								ok = t.fail("%s: element access [i+j] at %s: the loop advances by %d but consumes %d element(s) per iteration", what, site, tl.w, W)
+							case !everyIteration(fi, li, u.Block(), u.Index, x) || (tl.loop != nil && !mustInLoop(fi, tl.loop, li.Header)):
+								ok = t.fail("%s: the element access [i+j] at %s is conditional (other than by its own bounds guard)", what, site)
+							default:
+								consumers++
+								t.leaves = append(t.leaves, fmt.Sprintf("%s[i+j], j<%d %s", what, W, site))
+							}
+						}
 					}
-					if okk, why := tiledOver(lo, x, W); !okk {
-						ok = t.fail("%s: element access [i+j] at %s: %s", what, site, why)
-						continue
+				} else if li.StartVal != nil && len(base) == 0 {
+					// for pos := start; pos < end; pos++ { … x[pos] … }
+					if tl := findTile(poly(li.StartVal)); tl != nil {
+						done = true
+						w, wok := widthOf(li.Bound, li.StartVal, x)
+						switch {
+						case !wok || w != tl.w:
+							ok = t.fail("%s: element access at %s: the inner loop does not run over the window [start, min(len, start+%d))", what, site, tl.w)
+						case !everyIteration(fi, li, u.Block(), u.Index, x) || (tl.loop != nil && !mustInLoop(fi, tl.loop, li.Header)):
+							ok = t.fail("%s: the element access at %s is conditional", what, site)
+						default:
+							consumers++
+							t.leaves = append(t.leaves, fmt.Sprintf("%s[pos], start ≤ pos < start+%d %s", what, w, site))
+						}
 					}
-					if li.Parent != lo || !everyIteration(fi, li, u.Block(), u.Index, x) || !mustInLoop(fi, lo, li.Header) {
-						ok = t.fail("%s: the element access [i+j] at %s is conditional (other than by its own bounds guard)", what, site)
-						continue
-					}
-					consumers++
-					t.leaves = append(t.leaves, fmt.Sprintf("%s[i+j], j<%d %s", what, W, site))
-					continue
 				}
 			}
-			ok = t.fail("%s: element access at %s with an index that is not a loop variable (or i+j of two)", what, site)
+			if !done {
+				_, why := tileFor(u.Block(), u.Index)
+				ok = t.fail("%s: element access at %s: %s", what, site, why)
+			}
 		default:
 			ok = t.fail("%s flows into %T at %s", what, r, site)
 		}
@@ -357,11 +622,69 @@ func ruleAbsorbTiling(cx *Ctx, key, pkg, name string) []Obligation {
 		return []Obligation{undecided(key, desc, "no list-of-Goldilocks parameter in "+P.FnName(fn))}
 	}
 	t := &tiler{P: P, seen: map[ssa.Value]bool{}}
-	if !t.covers(fn, x, x.Name(), 0) {
+	if !t.covers(fn, x, x.Name(), 0, nil) {
 		return []Obligation{bad(key, desc, strings.Join(t.why, " | "), P.FnName(fn)+" "+P.Pos(fn.Pos()))}
 	}
 	if len(t.leaves) == 0 {
 		return []Obligation{undecided(key, desc, "no element access found under "+P.FnName(fn))}
 	}
 	return []Obligation{good(key, desc, P.FnName(fn)+": "+strings.Join(t.leaves, "; "))}
+}
+
+// ruleSpongeOutput (C10): what the BN254 sponge hands back is, on every path, element 0 of the sponge state — the
+// local array the permutation's result is written to. An extra return (a "short input" shortcut handing back the raw
+// packing, a cached value, another lane) makes the hash differ from the reference for the inputs that take it and can
+// make it invertible, while the lengths the shipped proof hashes never take it.
+func ruleSpongeOutput(cx *Ctx) []Obligation {
+	P := cx.P
+	key := "C10/sponge/output"
+	desc := "HashNoPad returns element 0 of the sponge state on every path (no shortcut return for some input lengths, no other lane)"
+	fn := P.Func("poseidon", "(*BN254Chip).HashNoPad")
+	if fn == nil {
+		return []Obligation{undecided(key, desc, "poseidon.BN254Chip.HashNoPad not found")}
+	}
+	states := map[*ssa.Alloc]bool{}
+	for _, b := range fn.Blocks {
+		for _, ins := range b.Instrs {
+			st, ok := ins.(*ssa.Store)
+			if !ok {
+				continue
+			}
+			if c, ok := st.Val.(*ssa.Call); ok && isBN254Perm(c.Common().StaticCallee()) {
+				if al, ok := st.Addr.(*ssa.Alloc); ok {
+					states[al] = true
+				}
+			}
+		}
+	}
+	if len(states) == 0 {
+		return []Obligation{undecided(key, desc, "no local receiving the permutation's result in "+P.FnName(fn))}
+	}
+	n := 0
+	for _, b := range fn.Blocks {
+		ret, ok := b.Instrs[len(b.Instrs)-1].(*ssa.Return)
+		if !ok {
+			continue
+		}
+		n++
+		okRet := false
+		if len(ret.Results) == 1 {
+			if u, ok := stripCopies(ret.Results[0]).(*ssa.UnOp); ok && u.Op == token.MUL {
+				if ia, ok := u.X.(*ssa.IndexAddr); ok {
+					if al, ok := ia.X.(*ssa.Alloc); ok && states[al] {
+						if k, ok := constInt(ia.Index); ok && k == 0 {
+							okRet = true
+						}
+					}
+				}
+			}
+		}
+		if !okRet {
+			return []Obligation{bad(key, desc, "a return hands back something other than state[0]: "+ret.String(), P.Pos(ret.Pos()))}
+		}
+	}
+	if n == 0 {
+		return []Obligation{undecided(key, desc, "no return found")}
+	}
+	return []Obligation{good(key, desc, fmt.Sprintf("%s: %d return(s)", P.FnName(fn), n))}
 }
